@@ -396,5 +396,18 @@ A: 'a';
 B: 'b';
 """, sentences=["p abc x", "q abc y", "p a b z", "pabcx", "p ab z"], invalid=["p abc y", "q abc x", "p abc", "p a b x"],
     c12="TG", w=False, most_specific=False, longest_match=False, w_reason="lexical ambiguity with tokens of different lengths")
+# fancy_regex: a look-ahead regex that backtracks exponentially -- the regex
+# engine gives up at run time (BacktrackLimitExceeded) on a key that is not
+# followed by ':'; that is a resource fault inside a dependency and must
+# surface as "token not recognised" -> Err, never as a panic (C15)
+for algo in ("lr", "glr"):
+    add(f"h_fancy_backtrack_{algo}", None, algo=algo, stem="fancy_backtrack", inline="""Pairs: Pair+;
+Pair: Key ':' Num;
+terminals
+Key: /(a|b|ab)*(?=:)/;
+Colon: ':';
+Num: /\\d+/;
+""", sentences=["ab: 1", "abab: 1 ba: 2", "ab" * 30 + ": 7", "a: 1 " + "ab" * 26 + ": 2"], invalid=["ab" * 30, "ab" * 30 + " 1", "ab 1"],
+        c12="TG", w=False, w_reason="look-ahead", fancy=True)
 json.dump({"entries": entries}, open(os.path.join(OUT, "manifest.json"), "w"), indent=1, ensure_ascii=False)
 print(len(entries), "entries")
